@@ -1201,6 +1201,49 @@ def rule_comment_pairing(prog):
                     "`%s` has %d own tokens (%s); its parser skips comments in front of each of them, but the formatter only "
                     "re-attaches the comments in front of the first token: every other comment inside is lost"
                     % (label, len(toks), ", ".join(toks)), (label.split("::")[0],))
+    # exactly once: a variant that is printed as its raw token slice (AstInfo::fmt prints every token, comments included) must not be
+    # wrapped in a comment helper on top of that - its comments would be printed twice
+    raw_variants = {}
+    for b in c.bodies:
+        if b["p"].startswith("lsp4spl::features::formatting") and b["name"] == "fmt" and self_node(b):
+            st = c.ty(b["impl_self"])
+            for m in hir.nodes(b["body"], "Match"):
+                for arm in m["arms"]:
+                    pv = hir.pat_variant(arm["pat"]) or ""
+                    if not pv.startswith(st["p"] + "::"):
+                        continue
+                    for mc in hir.nodes(arm["body"], "MethodCall"):
+                        if mc["m"] == "fmt":
+                            t = hir.peel(c, mc["recv"]["t"])
+                            for a in mc["recv"].get("adj") or []:
+                                t = hir.peel(c, a["to"])
+                            if t["k"] == "adt" and last(t["p"]) == "AstInfo" and not helper_calls(arm["body"]):
+                                raw_variants.setdefault(last(st["p"]), set()).add(pv)
+    for b in c.bodies:
+        if not b["p"].startswith("lsp4spl::features::formatting") or b["p"] in helper_ps or "/tests" in c.file_of(b["sp"]):
+            continue
+        for n, parents in hir.walk(b["body"]):
+            if n.get("k") != "Call" or (hir.callee(n) or "") not in helper_ps:
+                continue
+            first = hir.strip(n["args"][0])
+            if not (first.get("k") == "MethodCall" and first["m"] == "fmt"):
+                continue
+            t = hir.peel(c, first["recv"]["t"])
+            for a in first["recv"].get("adj") or []:
+                t = hir.peel(c, a["to"])
+            if t["k"] != "adt":
+                continue
+            label = last(t["p"]) if last(t["p"]) != "Reference" else last(c.ty(int(t["a"][0]))["s"])
+            rv = raw_variants.get(label)
+            if not rv:
+                continue
+            # which variants can reach this application?
+            ctx = [v for pt in _ctx_pats(parents) for v in hir.pat_variants_all(pt) if v.rsplit("::", 1)[0].endswith("ast::" + label)]
+            excluded = bool(ctx) and not (set(ctx) & rv)
+            seen += 1
+            out.add("Format for " + label, "the comments of a %s that is printed as raw tokens are not printed a second time" % label, excluded,
+                    c.loc(n["sp"]), "`%s` prints its tokens one by one, comments included; this helper application is reached for that variant as "
+                    "well and prints the comments of the slice in front of it again" % ", ".join(sorted(last(x) for x in rv)), (label, "once"))
     # parameters and local variable declarations are printed by their procedure: each gets an *all comments* helper application
     # (their parsers skip comments in front of name, `:` and type; only the comments in front of the declaration are in `doc`)
     applied = {}
